@@ -329,6 +329,16 @@ extern "C" {
     AWS_CATCH(0)
   }
 
+  // the Form the generator declares is taken from another array (e.g. the same record with its fields in another order)
+  int aws_gen_declare_form_of(long h, long content) {
+    AWS_TRY
+    auto gh = get<GenHandle>(h, K_GEN);
+    ak::FormPtr form = get<ak::Content>(content, K_CONTENT)->form(true);
+    gh->gen = std::make_shared<SimGenerator>(form, gh->gen->length(), gh->st);
+    return 1;
+    AWS_CATCH(0)
+  }
+
   int aws_gen_script(long h, const int* script, int n) {
     AWS_TRY
     get<GenHandle>(h, K_GEN)->st->script = std::vector<int>(script, script + n);
